@@ -290,6 +290,14 @@ done:
 static ares_status_t config_search(ares_sysconfig_t *sysconfig, const char *str,
                                    size_t max_domains)
 {
+  /* A value consisting only of separators holds no domain at all.  Ignore it
+   * like any other malformed value: ares_strsplit() returns NULL for it, which
+   * must not be mistaken for an out of memory condition (that would abort
+   * processing of the whole configuration). */
+  if (str[strspn(str, ", ")] == 0) {
+    return ARES_SUCCESS;
+  }
+
   if (sysconfig->domains && sysconfig->ndomains > 0) {
     /* if we already have some domains present, free them first */
     ares_strsplit_free(sysconfig->domains, sysconfig->ndomains);
